@@ -66,6 +66,12 @@ def many_closed_rings(k):
     return ["[C]"] + ["[C]", "[C]", "[Ring1]", "[Ring1]"] * k
 
 
+def rings_beyond_99(rng, tail=150):
+    """More than 99 ring closures followed by overlapping (fused / bridged / spiro) rings: ring numbers
+    have to be reused while other reused numbers are still open."""
+    return many_closed_rings(100) + alive_selfies(rng, tail, p_ring=0.35, p_branch=0.08, p_dot=0.0, p_nop=0.0)
+
+
 def many_open_rings(k, gap=None):
     """k ring bonds that are all open at the same time in the written SMILES."""
     gap = gap or k
